@@ -229,3 +229,222 @@ def check_skeleton(body, spans, expected, where):
     got = skeleton(body, spans)
     if got != re.sub(r"\s+", "", expected):
         raise TranslateError("control flow of %s changed: skeleton is now %s" % (where, got))
+
+
+# ----------------------------------------------------------------------------------------------
+# claim protocol: what each outcome of `try_claim` leads to (match arms), and the order of the
+# claim and the memo-table reads
+
+MEMO_READ = re.compile(r"\bget_memo_from_table_for\s*\(|\.get_erased\s*\(\s*\)|\.get_memo\s*\(|\bmemo_slot\s*\.\s*get\b")
+FINAL_CHECK = re.compile(r"may_be_provisional|validate_may_be_provisional|verify_memo|shallow_verify_memo")
+
+
+def _close(src, i):
+    """src[i] opens a bracket; index of the matching closer (string literals are skipped)"""
+    from rs2lean import _skip_literal
+    depth, j = 0, i
+    while j < len(src):
+        k = _skip_literal(src, j)
+        if k != j:
+            j = k
+            continue
+        if src[j] in '([{':
+            depth += 1
+        elif src[j] in ')]}':
+            depth -= 1
+            if depth == 0:
+                return j
+        j += 1
+    raise TranslateError("unbalanced brackets")
+
+
+def top_statements(body):
+    """top-level statements of a block body: (start offset, text); a statement ends at a `;` at
+    depth 0 or at the `}` closing a block opened at depth 0 that is not followed by `else`, `.`,
+    `?`, `;` or an operator (i.e. block-like statements `if … {}` / `match … {}` / `loop {}`)."""
+    from rs2lean import _skip_literal
+    res, depth, start, j, n = [], 0, 0, 0, len(body)
+    while j < n:
+        k = _skip_literal(body, j)
+        if k != j:
+            j = k
+            continue
+        c = body[j]
+        if c in '([{':
+            depth += 1
+        elif c in ')]}':
+            depth -= 1
+            if c == '}' and depth == 0:
+                rest = body[j + 1:].lstrip()
+                head = body[start:j + 1].lstrip()
+                if not re.match(r"else\b|[.?;,)]|&&|\|\||==|=>", rest) and not re.match(r"let\b|return\b", head):
+                    res.append((start, body[start:j + 1])); start = j + 1
+        elif c == ';' and depth == 0:
+            res.append((start, body[start:j + 1])); start = j + 1
+        j += 1
+    if body[start:].strip():
+        res.append((start, body[start:]))
+    return [(s, t) for s, t in res if t.strip()]
+
+
+def match_arms(text, where):
+    """`text` starts with the scrutinee of a `match`; returns (scrutinee, [(pattern, body)], end offset)"""
+    from rs2lean import _skip_literal
+    depth, j = 0, 0
+    while j < len(text):
+        k = _skip_literal(text, j)
+        if k != j:
+            j = k
+            continue
+        if text[j] in '([':
+            depth += 1
+        elif text[j] in ')]':
+            depth -= 1
+        elif text[j] == '{' and depth == 0:
+            break
+        j += 1
+    else:
+        raise TranslateError("%s: match without a body" % where)
+    scrut, end = text[:j], _close(text, j)
+    inner, arms, p = text[j + 1:end], [], 0
+    while inner[p:].strip():
+        # the first `=>` at depth 0
+        q, d = p, 0
+        while q < len(inner):
+            k = _skip_literal(inner, q)
+            if k != q:
+                q = k
+                continue
+            if inner[q] in '([{':
+                d += 1
+            elif inner[q] in ')]}':
+                d -= 1
+            elif inner[q:q + 2] == '=>' and d == 0:
+                break
+            q += 1
+        else:
+            raise TranslateError("%s: malformed match arm" % where)
+        pat = inner[p:q].strip()
+        r = q + 2
+        while inner[r].isspace():
+            r += 1
+        if inner[r] == '{':
+            e = _close(inner, r)
+            body_txt, p = inner[r + 1:e], e + 1
+            if inner[p:].lstrip().startswith(','):
+                p = inner.index(',', p) + 1
+        else:
+            e, d = r, 0
+            while e < len(inner) and not (inner[e] == ',' and d == 0):
+                k = _skip_literal(inner, e)
+                if k != e:
+                    e = k
+                    continue
+                d += inner[e] in '([{'
+                d -= inner[e] in ')]}'
+                e += 1
+            body_txt, p = inner[r:e], e + 1
+        arms.append((pat, body_txt.strip()))
+    return scrut, arms, end + 1
+
+
+def claim_arm(pattern, body, cycle_handler, where):
+    """classify one arm of `match ….try_claim(…)`: returns dict(blocks, ignored, reads, exit, final)
+    with exit in continue_/retry/cycle/answerFromMemo; unknown statements raise TranslateError"""
+    bound = re.match(r"ClaimResult::\w+\s*\(\s*(\w+)\s*\)", pattern)
+    var = bound.group(1) if bound else None
+    stmts = [norm(t).rstrip(';').strip() for _, t in top_statements(body)]
+    res = {'blocks': False, 'ignored': True, 'reads': len(MEMO_READ.findall(body)), 'exit': None,
+           'final': bool(FINAL_CHECK.search(body))}
+    for st in stmts:
+        m = re.match(r"^(?:let\s+(\w+)\s*=\s*)?(\w+)\s*\.\s*block_on\s*\(\s*zalsa\s*\)$", st)
+        if m and m.group(2) == var:
+            res['blocks'] = True
+            res['ignored'] = m.group(1) in (None, '_')
+            continue
+        if MEMO_READ.search(st):
+            res['exit'] = 'answerFromMemo'
+            continue
+        if re.match(r"^return\s+(ColdResult::Retry|None)$", st):
+            res['exit'] = res['exit'] or 'retry'
+            continue
+        if var and st == var:
+            res['exit'] = res['exit'] or 'continue_'
+            continue
+        if re.match(r"^return\s+(?:ColdResult::Verified|Some)\s*\(\s*(?:self\s*\.\s*)?%s\s*\(" % cycle_handler, st):
+            res['exit'] = res['exit'] or 'cycle'
+            continue
+        raise TranslateError("%s: unrecognised statement in the arm `%s`: %r" % (where, pattern, st[:80]))
+    if res['exit'] is None:
+        raise TranslateError("%s: the arm `%s` has no recognised exit" % (where, pattern))
+    return res
+
+
+CLAIM_TYPES = """/-- where an arm of `match ….try_claim(…)` goes -/
+inductive ClaimExit where
+  /-- the arm evaluates to the claim guard: execution continues below the `match` -/
+  | continue_
+  /-- the function returns WITHOUT an answer (`ColdResult::Retry` / `None`): the caller's loop starts over -/
+  | retry
+  /-- the cycle handler answers -/
+  | cycle
+  /-- the arm reads the memo table and may answer from what it finds (`checksFinal`: some
+      `may_be_provisional` / `verify_memo` test occurs in the arm) -/
+  | answerFromMemo (checksFinal : Bool)
+deriving DecidableEq, Repr
+
+/-- one arm of `match ….try_claim(…)` -/
+structure ClaimArm where
+  /-- `blocked_on.block_on(zalsa)` is called -/
+  blocks : Bool
+  /-- its result is not bound to a name (`let _ = …`) -/
+  blockResultIgnored : Bool
+  /-- number of memo-table reads inside the arm -/
+  memoReads : Nat
+  exit : ClaimExit
+deriving DecidableEq, Repr
+"""
+
+
+def claim_protocol(L, body, prefix, cycle_handler, where):
+    """emit `<prefix>_on_claimed/_on_running/_on_cycle`, `<prefix>_claim_arms`,
+    `<prefix>_memo_reads_before_claim/_after_claim`, `<prefix>_reentrancy_allowed`"""
+    stmts = top_statements(body)
+    idx = [i for i, (_, t) in enumerate(stmts) if re.search(r"\btry_claim\s*\(", t)]
+    if len(idx) != 1:
+        raise TranslateError("%s: %d top-level statements call try_claim" % (where, len(idx)))
+    ci = idx[0]
+    m = re.match(r"\s*let\s+claim_guard\s*=\s*match\s+", stmts[ci][1])
+    if not m:
+        raise TranslateError("%s: the claim is no longer `let claim_guard = match ….try_claim(…)`" % where)
+    scrut, arms, end = match_arms(stmts[ci][1][m.end():], where)
+    if stmts[ci][1][m.end() + end:].strip() != ';':
+        raise TranslateError("%s: trailing code after the claim match" % where)
+    rm = re.search(r"\btry_claim\s*\((.*)\)\s*$", norm(scrut))
+    if not rm or MEMO_READ.search(scrut):
+        raise TranslateError("%s: scrutinee of the claim match changed" % where)
+    ra = re.search(r"Reentrancy::(Allow|Deny)\s*,?\s*$", rm.group(1))
+    if not ra:
+        raise TranslateError("%s: reentrancy argument of try_claim changed" % where)
+    names = {'Claimed': 'claimed', 'Running': 'running', 'Cycle': 'cycle'}
+    seen = []
+    for pat, abody in arms:
+        pm = re.match(r"^ClaimResult::(\w+)\b", pat)
+        if not pm or pm.group(1) not in names or ' if ' in pat or '|' in pat:
+            raise TranslateError("%s: unexpected claim arm `%s`" % (where, pat))
+        if pm.group(1) in seen:
+            raise TranslateError("%s: duplicate claim arm `%s`" % (where, pat))
+        seen.append(pm.group(1))
+        a = claim_arm(pat, abody, cycle_handler, where)
+        ex = a['exit'] if a['exit'] != 'answerFromMemo' else 'answerFromMemo %s' % ('true' if a['final'] else 'false')
+        L.raw("/-- arm `%s => %s`  (%s) -/\ndef %s_on_%s : ClaimArm :=\n  { blocks := %s, blockResultIgnored := %s, memoReads := %d, exit := .%s }\n" % (
+            doc_text(pat), doc_text(norm(abody))[:160], where, prefix, names[pm.group(1)],
+            'true' if a['blocks'] else 'false', 'true' if a['ignored'] else 'false', a['reads'], ex))
+    L.raw("/-- number of arms of the claim match (%s) -/\ndef %s_claim_arms : Nat := %d\n" % (where, prefix, len(arms)))
+    before = sum(len(MEMO_READ.findall(t)) for _, t in stmts[:ci])
+    after = sum(len(MEMO_READ.findall(t)) for _, t in stmts[ci + 1:])
+    L.raw("/-- memo-table reads in the statements BEFORE the claim statement (%s) -/\ndef %s_memo_reads_before_claim : Nat := %d\n" % (where, prefix, before))
+    L.raw("/-- memo-table reads in the statements AFTER the claim statement (%s) -/\ndef %s_memo_reads_after_claim : Nat := %d\n" % (where, prefix, after))
+    L.raw("/-- `try_claim(…, Reentrancy::%s)` (%s) -/\ndef %s_reentrancy_allowed : Bool := %s\n" % (
+        ra.group(1), where, prefix, 'true' if ra.group(1) == 'Allow' else 'false'))
+    return stmts, ci
